@@ -111,3 +111,48 @@ Definition events_in_tree (P : M_Dpop.dcop) (evs : list M_Dpop.ev) : bool :=
                     | EvFinished y => zmem y (tree_ids P)
                     | _ => true
                     end) evs.
+
+(* ---------- correspondence of the composition ---------- *)
+(* A composed case = a C01 case (dcop, pseudo-tree, schedule, recorded events of the real
+   DpopAlgo objects) + the names of the nodes + a C22 case (the calls into the real AgentsMgt,
+   which received the management messages the real OrchestratedAgents posted for those
+   computations through the real orchestrator queue).  Checked: both layers replay; the value /
+   end messages AgentsMgt handled are, in order, [mgmt_of] of the events of the DPOP model under
+   the same schedule (link + thread-mode transport); the orchestrator's DCOP object is [dcop_of]
+   of the DPOP model's dcop (variables up to order); the cost tables have the declared shape. *)
+Definition mev_eqb (a b : M_Orch.ev) : bool :=
+  match a, b with
+  | EValue a1 c1 v1, EValue a2 c2 v2 => String.eqb a1 a2 && String.eqb c1 c2 && Z.eqb v1 v2
+  | EEnd a1 c1, EEnd a2 c2 => String.eqb a1 a2 && String.eqb c1 c2
+  | _, _ => false
+  end.
+Definition cons_eqb (a b : constraint) : bool :=
+  list_eqb String.eqb (k_scope a) (k_scope b) && list_eqb Z.eqb (k_dims a) (k_dims b)
+  && list_eqb Z.eqb (k_table a) (k_table b).
+Definition var_eqb (a b : string * list Z) : bool :=
+  String.eqb (fst a) (fst b) && list_eqb Z.eqb (snd a) (snd b).
+Definition dcop_same (a b : M_Orch.dcop) : bool :=
+  list_eqb cons_eqb (d_cons a) (d_cons b) && Z.eqb (d_infinity a) (d_infinity b)
+  && Nat.eqb (List.length (d_vars a)) (List.length (d_vars b))
+  && forallb (fun v => existsb (var_eqb v) (d_vars b)) (d_vars a).
+
+Record ccase := mkCC {
+  cc_dpop : M_Dpop.case;
+  cc_names : list (Z * string);
+  cc_orch : M_Orch.case
+}.
+Definition check_ccase (k : ccase) : bool :=
+  let P := M_Dpop.c_dcop (cc_dpop k) in
+  let o := cc_orch k in
+  let L := link_of (cc_names k) (c_cfg o) in
+  let evs := snd (Net.run (dpop_proto P) (c_sched (cc_dpop k))) in
+  M_DpopValid.check_case (cc_dpop k) && M_Orch.check_case o && cons_shaped P
+  && list_eqb mev_eqb (filter is_ve (map o_ev (c_trace o))) (flat_map (mgmt_of L) evs)
+  && dcop_same (dcop_of L P (d_infinity (M_Orch.c_dcop o))) (M_Orch.c_dcop o).
+
+Inductive case2 := COrch (k : M_Orch.case) | CComp (k : ccase).
+Definition check_case2 (c : case2) : bool :=
+  match c with
+  | COrch k => M_Orch.check_case k
+  | CComp k => check_ccase k
+  end.
